@@ -1,5 +1,6 @@
 """C08 — --skip/--take pick exactly rows S..S+T-1 of the unlimited result."""
 from rules import pipeline_rules as P
+from rules import common
 
 INFO = {
     "decided": "The structural preconditions for the limiter and the sorter's top-N shortcut to be invisible: the "
@@ -11,7 +12,7 @@ INFO = {
                "its process() body and composed exhaustively for skip 0..3 x take none/0..3 over streams of 9 rows, "
                "forwards exactly rows S..S+T-1 and answers Break exactly when the T-th row was forwarded; the sorter's "
                "top-N budget is spent only by rows that are actually stored (key present), one slot per row, and a "
-               "full sorter evicts exactly one row after inserting.",
+               "full sorter evicts exactly one row after inserting. The collecting stage behind the limiter emits exactly once; the comparator the bounded sorter's ordered map relies on is the documented total order.",
     "not_decided": "The limiter's behaviour beyond the explored parameters (skip, take <= 3, streams of 9 rows) as a "
                    "run-time statement, and that the rows the sorter hands over are the S+T smallest (the comparator's "
                    "value logic).",
@@ -33,3 +34,8 @@ def run(ctx, rep):
     P.complete_forward(rep, lib)
     P.complete_once(rep, lib)
     P.go_protocol(rep, lib)
+    # the group is still emitted (shared with C09); the bounded sorter keeps its rows in an ordered map, which needs
+    # the comparator to be a total order (shared with C07)
+    from rules import c09 as _c09, c07 as _c07
+    common.share(_c09, ctx, rep, {"C09-EMIT-ONCE"})
+    common.share(_c07, ctx, rep, {"C07-RANK", "C07-ORD-DELEGATE", "C07-CASCADE"})
